@@ -474,7 +474,7 @@ def run(ctx):
         r = replay(ctx, binp)
         if r is not None:
             return r
-    msgs, spans = regen(ctx, ["spectrum", "efficiencies", "pm_integrand", "grid", "hom"])
+    msgs, spans = regen(ctx, ["spectrum", "efficiencies", "pm_integrand", "grid", "hom", "wrappers"])
     keys = ("phasematch", "jsa", "utils", "math", "beam", "spdc::efficiencies")
     ctx.cov["translated_spans"] = {k: v for k, v in spans.items() if k.startswith(keys)}
     for m in msgs:
@@ -509,6 +509,9 @@ def run(ctx):
                        "boundary (= and ± 1 ulp, threshold off and on), at threshold = alpha and ± 1 ulp; normalisation at random "
                        "bandwidth/power/deff; (power, deff) scaled over six decades; distinct = distinct (setup, input bits)")
     ctx.cov["clauses"] = {
+        "the methods SPDC::counts_* / SPDC::efficiencies hand (self, ranges, integrator) unchanged to the functions of counts.rs / efficiencies.rs the "
+        "rate theorems are about": "proved on the generated forwarders (C07_counts_methods_forward over Gen/Wrappers.v); implementation compared bit for "
+                                   "bit by the wrappers stage of ./check C08",
         "intensities/rates proportional to power x deff^2": "proved (generated normalisation; raw amplitudes syntactically independent: frame scan; rates = generated rendering of counts.rs with the generated correction factor and cell area dws*dwi) + Rust-vs-Rust 1e-12 over six decades; grids with unequal axis spacings",
         "efficiencies / normalised spectra / Schmidt / HOM independent of power, deff": "proved over the GENERATED definitions (Gen/Spectrum.v amplitude composed with Gen/HomSrc.v, Gen/SchmidtSrc.v via grpF's models; two sources scaled independently; normalised amplitude and intensities) + Rust-vs-Rust on every *_range accessor, sweep, hom_rate(_series), two-source (self and independent)",
         "envelope 1 at centre, 1/2 at +- half FWHM span": "proved (exact, and only there) + interval correspondence",
